@@ -371,6 +371,10 @@ func (p *Policy) sanitize(r io.Reader, w io.Writer) error {
 
 		case html.SelfClosingTagToken:
 
+			// The tokenizer treats <script/> and <style/> as opening a raw
+			// text element, so their body arrives as the next text token
+			mostRecentlyStartedToken = normaliseElementName(token.Data)
+
 			switch normaliseElementName(token.Data) {
 			case `script`:
 				if !p.allowUnsafe {
